@@ -87,26 +87,39 @@ time.gmtime = lambda s=None: _gm(time.time() if s is None else s)
 time.strftime = lambda f, t=None: _sf(f, time.localtime() if t is None else t)
 time.ctime = lambda s=None: _ct(time.time() if s is None else s)
 time.asctime = lambda t=None: _at(time.localtime() if t is None else t)
-class _DT(_d.datetime):
+_real_dt, _real_d = _d.datetime, _d.date
+class _DTMeta(type(_real_dt)):
+    def __instancecheck__(cls, o):
+        return isinstance(o, _real_dt)
+    def __subclasscheck__(cls, c):
+        return issubclass(c, _real_dt)
+class _DMeta(type(_real_d)):
+    def __instancecheck__(cls, o):
+        return isinstance(o, _real_d)
+    def __subclasscheck__(cls, c):
+        return issubclass(c, _real_d)
+class _DT(_real_dt, metaclass=_DTMeta):
     @classmethod
     def now(cls, tz=None):
-        return _d.datetime.fromtimestamp(time.time(), tz)
+        return _real_dt.fromtimestamp(time.time(), tz)
     @classmethod
     def utcnow(cls):
-        return _d.datetime.utcfromtimestamp(time.time())
+        return _real_dt.utcfromtimestamp(time.time())
     @classmethod
     def today(cls):
-        return _d.datetime.fromtimestamp(time.time())
-class _D(_d.date):
+        return _real_dt.fromtimestamp(time.time())
+class _D(_real_d, metaclass=_DMeta):
     @classmethod
     def today(cls):
-        return _d.date.fromtimestamp(time.time())
+        return _real_d.fromtimestamp(time.time())
+_DT.__name__ = _DT.__qualname__ = "datetime"
+_D.__name__ = _D.__qualname__ = "date"
 _d.datetime, _d.date = _DT, _D
 runpy.run_module("graphtage", run_name="__main__", alter_sys=True)
 """
 
 
-def run_subprocess(args, hashseed=None, timeout=120, cwd=None, stdin=None, clock_shift=None, extra_env=None):
+def run_subprocess(args, hashseed=None, timeout=900, cwd=None, stdin=None, clock_shift=None, extra_env=None):
     env = dict(os.environ)
     env["PYTHONPATH"] = REPO
     if hashseed is not None:
